@@ -110,7 +110,7 @@ func c9Once(c *Ctx) {
 				c.Und("R9.2", FuncKey(fn), "once", cl.Pos(), "sync.Once.Do with a non-literal function or on a non-struct receiver")
 				continue
 			}
-			infos = append(infos, onceInfo{n, fn, mk.Fn.(*ssa.Function), cl})
+			infos = append(infos, onceInfo{n, fn, onceBody(mk), cl})
 		}
 	})
 	if len(infos) == 0 {
@@ -257,6 +257,11 @@ func c9Immutable(c *Ctx) {
 			case *ssa.Parameter:
 				// option closure: anonymous function with exactly one parameter of type *T, and appliers verified fresh
 				okOpt := a.Fn.Parent() != nil && len(a.Fn.Params) == 1 && a.Fn.Params[0] == r && applyOK[TypeName(r.Type())]
+				// ... or the apply method of an option type (the same thing written as a named type): its callers are
+				// exactly the appliers checked above
+				if a.Fn.Name() == "apply" && a.Fn.Signature.Recv() != nil && len(a.Fn.Params) == 2 && a.Fn.Params[1] == r && applyOK[TypeName(r.Type())] {
+					okOpt = true
+				}
 				// value receiver copies (func (w T) With(v) T { w.f = v; return w })
 				_, isPtr := r.Type().Underlying().(*types.Pointer)
 				c.Check(okOpt || !isPtr, "R9.3", fname, slot, a.Instr.Pos(), "store through parameter %s: allowed only inside an option closure (whose appliers all pass a fresh clone) or on a by-value copy", r.Name())
@@ -517,4 +522,19 @@ func mayBe(v ssa.Value, pred func(ssa.Value) bool) bool {
 		return false
 	}
 	return rec(v, 0)
+}
+
+
+// onceBody: the function a literal or a method value handed to Once.Do runs: the literal itself, or - for a method
+// value x.m - the method m (the $bound wrapper only forwards to it).
+func onceBody(mk *ssa.MakeClosure) *ssa.Function {
+	f := mk.Fn.(*ssa.Function)
+	if f.Synthetic != "" && strings.HasSuffix(f.Name(), "$bound") {
+		for _, cl := range Calls(f) {
+			if sc := StaticCallee(cl); sc != nil && len(sc.Blocks) > 0 {
+				return sc
+			}
+		}
+	}
+	return f
 }
